@@ -137,15 +137,6 @@ Mutate(t, kvs, nid) ==
 ---------------------------------------------------------------------------
 (* filter: keep exactly the rows on which every predicate is TRUE *)
 
-RECURSIVE HasAggWinOp(_)
-HasAggWinOp(e) ==
-    CASE e.k \in {"agg", "win"} -> TRUE
-      [] e.k = "fn" -> \E i \in DOMAIN e.a : HasAggWinOp(e.a[i])
-      [] e.k = "case" -> (\E i \in DOMAIN e.cs : HasAggWinOp(e.cs[i].c) \/ HasAggWinOp(e.cs[i].v))
-                         \/ (\E i \in DOMAIN e.d : HasAggWinOp(e.d[i]))
-      [] e.k = "cast" -> HasAggWinOp(e.e)
-      [] OTHER -> FALSE
-
 KeepIdx(s, keep) == SelectSeq(Iota(Len(s)), LAMBDA i : i \in keep)
 SubSeqBy(s, keep) == LET ix == KeepIdx(s, keep) IN [p \in DOMAIN ix |-> s[ix[p]]]
 
@@ -395,7 +386,7 @@ Join(l, r, on, how, usfx) ==
     IN
     IF userClash THEN Fail("ValueError")
     ELSE IF how = "full" /\ ~allEq THEN Fail("ValueError")
-    ELSE IF \E i \in DOMAIN es : HasAggWinOp(es[i]) \/ es[i].fk # "e" THEN Fail("FunctionTypeError")
+    ELSE IF \E i \in DOMAIN es : HasAggWinOp(es[i]) THEN Fail("FunctionTypeError")
     ELSE
     LET sc   == Scope(l) \cup Scope(r)
         nl_  == Len(l.rows)
@@ -485,6 +476,7 @@ Obs(t) ==
       rows  |-> [r \in DOMAIN t.rows |-> [i \in DOMAIN t.vis |-> t.rows[r][t.vis[i]]]],
       pcls  |-> t.pcls, scls |-> t.scls, pdef |-> t.pdef, sdef |-> t.sdef,
       part  |-> [i \in DOMAIN t.part |-> t.nm[t.part[i]]],
+      pids  |-> t.part,
       loose |-> t.loose ]
 
 =============================================================================
